@@ -7,6 +7,7 @@ import warnings
 
 import numpy as np
 
+import c02_rules
 import exprs
 import progs
 from common import Check
@@ -33,7 +34,7 @@ def features(prog):
             "nonpointwise_map_blocks": any(q[0] == "map_blocks" and q[1] in ("reverse", "plus_blocksum") for q in nodes)}
 
 
-def run_program(chk, da, prog, sources, want):
+def run_program(chk, da, prog, sources, want, rc=None):
     feats = features(prog)
     for o in progs.ops_in(prog):
         chk.count("op:" + o)
@@ -73,6 +74,8 @@ def run_program(chk, da, prog, sources, want):
             continue
         seen.add(key)
         chk.count("rule:" + rule)
+        if rc is not None:
+            rc.add(rule, before, after, "captured")   # model correspondence (translation validation, in Coq)
         try:
             vb = exprs.eval_expr(before)
         except Exception:  # noqa: BLE001
@@ -128,15 +131,26 @@ def run(chk: Check):
                 "(the three hooks are wrapped from the harness, as trace_rewrites does) and validated by executing before and "
                 "after un-optimized; sources hold position-coded distinct values so a wrong block mapping shows; non-trivial = "
                 "more than one node; distinct by printed program + source layouts")
-    chk.assumptions = ["the raw expression lowered without simplify is the reference semantics (it is compared with NumPy by C01)"]
+    chk.rule += ("; MODEL CORRESPONDENCE (harness/c02_rules.py): each fired instance of a modelled rule (captured, or produced by "
+                 "invoking the rule hook directly on random operands) is reified (class -> constructor, index/axes/shape/chunk "
+                 "operands -> Coq literals, other children -> opaque leaves) and Coq checks wfb before = true and "
+                 "rule_fn before = Some after by exact structural equality; counts per rule are in rule_instances")
+    chk.assumptions = ["the raw expression lowered without simplify is the reference semantics (it is compared with NumPy by C01)",
+                       "reifier: an Elemwise operator is identified by (op, dtype, name, kwargs); scalar operands by (type, repr); "
+                       "unmodelled child classes are opaque leaves identified by _name with their shape and chunks"]
     chk.run_proofs()
     import c01
     S = slice
     corpus = [c for c in c01.CORPUS if c[0] in ("F2", "F11a", "F11b", "F17", "F18", "F20", "F20w")]
     corpus.append(("F24", ("broadcast_to", ("flip", ("diff", ("src", 0), 0), 0), (3, 5)), [(np.arange(6, dtype="int64"), ((2, 4),))]))
+    rc = c02_rules.RuleCheck(chk)
     for tag, prog, sources in corpus:
-        run_program(chk, da, prog, sources, progs.eval_np(prog, sources))
+        run_program(chk, da, prog, sources, progs.eval_np(prog, sources), rc)
     n = 8000 if chk.tier == "thorough" else 400
     for prog, sources, want in progs.gen_programs(chk.rng, n, unique=True):
-        run_program(chk, da, prog, sources, want)
+        run_program(chk, da, prog, sources, want, rc)
+    # model correspondence: every captured instance of a modelled rule, plus a directed stream that invokes the
+    # implementation's rule hooks on random operands, is reified and compared in Coq with the proven rule functions
+    c02_rules.run_directed(chk, rc, da, progs, 12000 if chk.tier == "thorough" else 720)
+    rc.flush()
     chk.extra["rules_fired"] = {k[5:]: v for k, v in chk.hist.items() if k.startswith("rule:")}
